@@ -128,6 +128,20 @@ def run(chk, repo):
         for kind in kinds:
             t = repo.find(mname, "%s.%s" % (cname, kind))
             inner = [f for f in t.body if isinstance(f, FuncTypes)]
+            rets = [s_ for s_ in docstring_free(t.body) if isinstance(s_, ast.Return) and isinstance(s_.value, ast.Name)]
+            if len(inner) > 1 and rets:
+                helpers_ = [f for f in inner if f.name != rets[-1].value.id]
+                inner = [f for f in inner if f.name == rets[-1].value.id]
+                from ..e3 import E3 as _E3, describe as _describe
+                _e3 = _E3([(mm_.name, mm_.tree) for mm_ in repo.modules.values()])
+                for hf in helpers_:
+                    for site in _e3.scan(hf):
+                        if site.in_generator:
+                            chk.decide(not site.escapes, "C01.lazy-shortest", "%s:%s.%s.%s" % (m.relpath, cname, kind, hf.name),
+                                       _describe(site),
+                                       why="when this operand is the shorter one the StopIteration of next() turns into a "
+                                           "RuntimeError inside the generator (PEP 479): the result no longer just ends "
+                                           "with the shortest operand", node=site.node)
             chk.require(len(inner) == 1, "%s.%s: inner dunder not found" % (cname, kind))
             asg = [s for s in docstring_free(t.body) if isinstance(s, ast.Assign) and unparse(s.targets[0]) == "op_func"]
             W = "%s:%s.%s" % (m.relpath, cname, kind)
@@ -485,7 +499,53 @@ def _family(chk, repo):
                     chk.decide(ok, "C01.family", W, "@%s on %s(%s)" % (unparse(d), fn.name, ", ".join(par)),
                                why="the named parameter is not at the given position: positional and keyword calls "
                                    "would broadcast different arguments", node=fn)
-    chk.floor("C01.family", n, 17, "functions decorated @elementwise(name, pos)")
+    # every function the confirmed tree broadcasts must still broadcast: by the decorator, or by handing its broadcast
+    # parameter straight to a function that does (nothing applied to the result outside)
+    chk.rule("C01.broadcast", "functions that broadcast over containers in the confirmed tree still do: decorated "
+                              "@elementwise, or 'return g(param, ...)' with g broadcasting that position")
+
+    def deco_of(fn):
+        for d in fn.decorator_list:
+            if isinstance(d, ast.Call) and unparse(d.func) == "elementwise":
+                a = [x.value for x in d.args if isinstance(x, ast.Constant)]
+                if len(a) == 2:
+                    return a
+        return None
+    nb = 0
+    for mname, rt in sorted(repo.ref_trees.items()):
+        if mname not in repo.modules:
+            continue
+        from ..equiv import units as _units
+        cur_u = {k: f for k, f, _, _ in _units(repo.modules[mname].tree) if isinstance(f, FuncTypes)}
+        cur = {f.name: f for f in cur_u.values()}
+        for rkey, rf, _c, _i in _units(rt):
+            if not isinstance(rf, FuncTypes) or deco_of(rf) is None:
+                continue
+            pname, ppos = deco_of(rf)
+            cf = cur_u.get(rkey)
+            W = "%s:%s" % (repo.modules[mname].relpath, rf.name)
+            if cf is None:
+                continue            # a removed public function is outside this rule
+            nb += 1
+            if deco_of(cf) is not None:
+                chk.ok("C01.broadcast", W, "@elementwise%s" % (tuple(deco_of(cf)),), node=cf)
+                n += 0
+                continue
+            r = docstring_free(cf.body)[-1] if docstring_free(cf.body) else None
+            ok = False
+            if len(docstring_free(cf.body)) == 1 and isinstance(r, ast.Return) and isinstance(r.value, ast.Call) \
+                    and isinstance(r.value.func, ast.Name) and r.value.func.id in cur:
+                g = cur[r.value.func.id]
+                gd = deco_of(g)
+                par = [a.arg for a in cf.args.args]
+                if gd is not None and ppos < len(par) and len(r.value.args) > gd[1] \
+                        and unparse(r.value.args[gd[1]]) == par[ppos]:
+                    ok = True
+            chk.decide(ok, "C01.broadcast", W, "no @elementwise: " + (short(r) if r is not None else "empty body"),
+                       why="%s broadcast over containers (parameter %r); now a list / generator / Stream argument is handed "
+                           "to scalar code as one object" % (rf.name, pname), node=cf)
+    chk.floor("C01.broadcast", nb, 16, "functions broadcasting in the confirmed tree")
+    chk.floor("C01.family", n, 12, "functions decorated @elementwise(name, pos)")
     mm = repo.mod("lazy_math")
     names = repo.find_assign("lazy_math", "_math_names")
     lst = [e.value for e in names.elts] if isinstance(names, ast.List) else []
